@@ -70,8 +70,13 @@ func hhmm(r *vlib.R, m int) string {
 
 func runC14(tier string, _ []string) int {
 	c := vlib.NewCtx("C14", tier, "exploration")
-	c.SetRule("configs: PRNG (start,end) minute pairs incl. all boundary pairs (00:00/23:59/equal/adjacent/wrap), weekday subsets (all 128 reachable), date lists incl. month/year ends and Feb 29; instants: every minute of a full week around an anchor (anchors: plain week, year end, leap day, month end) plus the seconds/nanoseconds around every window edge, each instant in UTC, +14:00, -12:00, +05:45 and -03:30; oracle = the day-D definition of the property, plus agreement across zones. distinct = (start<end | start==end | wrap, weekday filter size, date filter?, anchor); finally 400 instants in a jumbled order (all anchors, all zones) asked of ONE schedule value in a row")
+	c.SetRule("configs: PRNG (start,end) minute pairs incl. all boundary pairs (00:00/23:59/equal/adjacent/wrap), weekday subsets (all 128 reachable), date lists incl. month/year ends and Feb 29; instants: every minute of a full week around an anchor (anchors: plain week, year end, leap day, month end) plus the seconds/nanoseconds around every window edge, each instant in UTC, +14:00, -12:00, +05:45 and -03:30; oracle = the day-D definition of the property, plus agreement across zones. distinct = (start<end | start==end | wrap, weekday filter size, date filter?, anchor); finally 400 instants in a jumbled order (all anchors, all zones) asked of ONE schedule value in a row. The process itself runs in a zone 13 h ahead of / 11 h behind UTC (or +05:45 / -09:30, by seed). End to end: rules with 1-3 schedule conditions run in a real rule client on an instance; the weekday list is written in the layouts a front end may use (all seven days, only the chosen days, a run of days from Sunday on, index 0 under a blank key; before the rule starts or while it runs), a sibling node sends about 90 trigger points carrying chosen instants (window edges +-1 ns, random minutes over ten days, in several zones), and after every processed trigger batch - those and the rule's own ten-second ticker's - each condition's active state (rule.batchDone hook site) must equal the definition for the instant the trigger carries")
 	c.Assume("only well-formed HH:MM / YYYY-MM-DD strings are generated")
+	// the host's own zone must not matter either: the process runs in one whose date differs from the UTC date
+	// for half of the day
+	hostZones := []*time.Location{time.FixedZone("host+13", 13*3600), time.FixedZone("host-11", -11*3600), time.FixedZone("host+0545", 5*3600+45*60), time.FixedZone("host-0930", -(9*3600 + 30*60))}
+	time.Local = hostZones[int(c.Seed%4+4)%4]
+	vlib.SetPortBlock(14)
 	nCfg := c.N(150, 6000)
 	zones := []*time.Location{time.UTC, time.FixedZone("p14", 14*3600), time.FixedZone("m12", -12*3600), time.FixedZone("p0545", 5*3600+45*60), time.FixedZone("m0330", -(3*3600 + 30*60))}
 	anchors := []time.Time{
@@ -227,5 +232,9 @@ func runC14(tier string, _ []string) int {
 	})
 	c.Eval(int(evals))
 	c.Count("configs", int64(nCfg))
+	if !vlib.Aborted() {
+		c14EndToEnd(c)
+		c.Require("condition_states_checked_after_triggers", 100)
+	}
 	return c.Finish()
 }
